@@ -4,6 +4,7 @@ package crypto
 
 import (
 	"crypto/rc4"
+	"io"
 	"math/big"
 )
 
@@ -229,5 +230,100 @@ func H_C07_client_glued() {
 	padD := x0 - (1024 + 14)
 	if o0-padD-6 >= 96 {
 		vAssert(in[o0-padD-6+3]^ks[1024+11] == 2, "the client continues encrypted only if the server selected RC4")
+	}
+}
+
+var vSyncN, vSyncM, vSyncV int
+
+// vSyncRec stands in for synchronise under H_C07_sync_window: it records the window it is given
+// and ends the handshake.
+func vSyncRec(c io.Reader, w []byte, v []byte, n, m int) ([]byte, error) {
+	vSyncN, vSyncM, vSyncV = n, m, len(v)
+	return w, io.ErrUnexpectedEOF
+}
+
+// H_C07_sync_window: the search windows the two handshakes use. MSE lets each side send 0..512
+// bytes of padding before its synchronisation pattern (the 8-byte encrypted VC for the client to
+// find, the 20-byte req1 hash for the server): with the scan succeeding exactly when the pattern
+// lies entirely within its window (H_C07_synchronise), every legal peer is found under every
+// segmentation iff the window is at least 512 + the pattern's length.
+func H_C07_sync_window() {
+	vHashCalls = 0
+	o := &Options{AllowCryptoHandshake: true, AllowEncryption: true}
+	in := vBytes("in", 96+8)
+	vAssume(len(in) >= 96)
+	c := &vScriptConn{in: in, seg: 2}
+	sk := vBytes("sk", 20)
+	vAssume(len(sk) == 20)
+	vSyncN = -1
+	if vParam("side") == 0 {
+		ClientHandshake(c, sk[:20], []byte{1, 2, 3}, o)
+	} else {
+		ServerHandshake(c, nil, [][]byte{sk[:20]}, o)
+	}
+	if vSyncN < 0 {
+		vReach("no-sync")
+		return
+	}
+	vReach("sync")
+	vAssert(vSyncN >= 512+vSyncV, "the search window admits the longest legal padding and the whole pattern")
+	vAssert(vSyncV == 8 || vSyncV == 20, "the pattern is the encrypted VC or the req1 hash")
+}
+
+// H_C08_server_select: the MSE server against a WELL-FORMED client flight built by the harness
+// from symbolic fields - public key, PadA of 0 or 3 bytes (parameter), HASH('req1',S), HASH('req2',SKEY) xor
+// HASH('req3',S), ENCRYPT(VC, crypto_provide (any 4 bytes), len(PadC)=0, len(IA)=0) - with the
+// digests the server itself derives (crypto.hash replaced by arbitrary digests, the same symbols
+// on both sides) and the keystream of its receiving key: whenever the handshake succeeds the
+// method the server selects is one the client offered (and one its own policy permits:
+// H_C08_server_policy), so both ends continue in a mode both permit.
+func H_C08_server_select() {
+	vHashCalls = 0
+	o := vOptions()
+	var hs [5][]byte
+	for i := range hs {
+		hs[i] = vBytes(vHashNames[i], 20)
+		vAssume(len(hs[i]) == 20)
+		hs[i] = hs[i][:20]
+	}
+	// the server derives, in this order: req1 (0), req3 (1), req2 of the only torrent (2), keyB (3), keyA (4)
+	kc, _ := rc4.NewCipher(hs[4])
+	ks := make([]byte, 1024+16)
+	kc.XORKeyStream(ks, ks)
+	ya := vBytes("ya", 96)
+	vAssume(len(ya) == 96)
+	pad := vBytes("pada", 4)
+	vAssume(len(pad) == vParam("pad"))
+	pad = pad[:vParam("pad")]
+	for i := range pad {
+		// (no padding byte starts a coincidental earlier occurrence of the req1 hash: the flight is
+		// parsed where the harness put its fields)
+		vAssume(pad[i] != hs[0][0])
+	}
+	provide := vBytes("provide", 4)
+	vAssume(len(provide) == 4)
+	in := append([]byte{}, ya[:96]...)
+	in = append(in, pad...)
+	in = append(in, hs[0]...)
+	in = append(in, xor(hs[1], hs[2])...)
+	plain := []byte{0, 0, 0, 0, 0, 0, 0, 0, provide[0], provide[1], provide[2], provide[3], 0, 0, 0, 0}
+	for i := 0; i < 16; i++ {
+		in = append(in, plain[i]^ks[1024+i])
+	}
+	c := &vScriptConn{in: in, seg: 2}
+	sk := vBytes("sk", 20)
+	vAssume(len(sk) == 20)
+	conn, skey, _, err := ServerHandshake(c, nil, [][]byte{sk[:20]}, o)
+	if err != nil {
+		vReach("refused")
+		return
+	}
+	vReach("established")
+	_, encrypted := conn.(*Conn)
+	vAssert(skey != nil, "an agreed torrent")
+	if encrypted {
+		vAssert(provide[3]&2 != 0, "the server continues encrypted only if the client offered RC4")
+	} else {
+		vAssert(provide[3]&1 != 0, "the server continues in plaintext only if the client offered plaintext")
 	}
 }
